@@ -2,6 +2,7 @@
 package main
 
 import (
+	"regexp"
 	"fmt"
 	"math/big"
 	"os"
@@ -49,6 +50,9 @@ func countFeatures(rep *vc.Report, c *ng.Case) {
 
 // --------------------------------------------------------------------------------------------- C08
 
+var amountRe = regexp.MustCompile(`\[([A-Z][A-Z0-9/]*) ([0-9]+)\]`)
+var varMonetaryRe = regexp.MustCompile(`^([A-Z][A-Z0-9/]*) ([0-9]+)$`)
+
 func runC08(cfg *vc.Config, rep *vc.Report) {
 	cfg.Cases(40000, 3000000, func(i int, r *vc.Rand) {
 		g := ng.FullCfg()
@@ -67,6 +71,32 @@ func runC08(cfg *vc.Config, rep *vc.Report) {
 			text = text[:pos] + vc.Pick(r, []string{"!", "#", ";", "&", "^", "~", "?", "'", "é", "<", "|", "\\", "§", "`"}) + text[pos:]
 			c.Broken = "illegal_character"
 			ref = ng.Outcome{Class: ng.ClsRefused}
+			rep.Current(map[string]any{"index": i, "script": text, "vars": c.World.Vars})
+		}
+		if c.Broken == "" && r.Chance(1, 16) {
+			// the same program with amounts spelled with leading zeros (the grammar's NUMBER is [0-9]+, and a variable value is
+			// "ASSET digits"): the meaning does not change
+			n := 0
+			text = amountRe.ReplaceAllStringFunc(text, func(m string) string {
+				if r.Chance(1, 2) {
+					n++
+					return amountRe.ReplaceAllString(m, "[${1} "+strings.Repeat("0", r.Range(1, 3))+"${2}]")
+				}
+				return m
+			})
+			w2 := *c.World
+			w2.Vars = map[string]string{}
+			for k, v := range c.World.Vars {
+				if mm := varMonetaryRe.FindStringSubmatch(v); mm != nil && r.Chance(1, 2) {
+					v = mm[1] + " " + strings.Repeat("0", r.Range(1, 3)) + mm[2]
+					n++
+				}
+				w2.Vars[k] = v
+			}
+			c.World = &w2
+			if n > 0 {
+				rep.Inc("programs_with_leading_zero_amounts")
+			}
 			rep.Current(map[string]any{"index": i, "script": text, "vars": c.World.Vars})
 		}
 		real := runReal(text, c.World, freshCompile)
